@@ -115,7 +115,7 @@ def gen_cases(ctx):
            "quat": [[0.1, 0.2, 0.30000000000000004, 1 / 3]], "corpus": "extremes"}
     yield {"kind": "bag", "stamps": [1500000000.1234567, 1500000001.0000000], "xyz": [[1.0, 2.0, 3.0]] * 2, "quat": [[1.0, 0.0, 0.0, 0.0]] * 2,
            "frame": "map", "corpus": "epoch"}
-    for _ in range(800 if not th else 3000):
+    for _ in range(800 if not th else 8000):
         n = r.choice([1, 1, 2, 3, 5, 10, 30])
         fmt = r.choice(["tum", "kitti"])
         c = {"kind": "text", "fmt": fmt, "variant": r.choice(["h", "p"]), "rw": r.choice(["h", "p"])}
@@ -126,7 +126,7 @@ def gen_cases(ctx):
     c.update(gen_traj(r, big))
     yield c
     yield {"kind": "text", "fmt": "kitti", "variant": "h", "rw": "p", "mats": gen_mats(r, big // 4), "big": True}
-    for _ in range(400 if not th else 1500):
+    for _ in range(400 if not th else 4000):
         n = r.choice([1, 2, 5, 20])
         info = {}
         for _ in range(r.randint(0, 5)):
